@@ -221,6 +221,13 @@ func genStatusData(t *simrt.Tape, o *imap.StatusOptions, mailbox string) *imap.S
 		v := int64(t.Choose(1 << 30))
 		d.Size = &v
 	}
+	if o.AppendLimit && t.Choose(2) == 0 { // otherwise no limit: sent as "APPENDLIMIT NIL"
+		d.AppendLimit = u()
+	}
+	if o.DeletedStorage {
+		v := int64(t.Choose(1 << 30))
+		d.DeletedStorage = &v
+	}
 	return d
 }
 
@@ -803,6 +810,12 @@ func attrStrs(a []imap.MailboxAttr) []string {
 func statusNorm(d *imap.StatusData) interface{} {
 	if d == nil {
 		return nil
+	}
+	// "APPENDLIMIT NIL" (no limit) is delivered by the client as the largest uint32: same meaning
+	if d.AppendLimit != nil && *d.AppendLimit == ^uint32(0) {
+		c := *d
+		c.AppendLimit = nil
+		return &c
 	}
 	return d
 }
